@@ -31,6 +31,8 @@
 (*                       without key material is rejected, not a panic [F5]*)
 (*   TimeSeesDeactivation  resolving by time at/after a deactivation does  *)
 (*                       not fall back to the older active version [F19]   *)
+(*   LaxDefects = {}     methods embedded in a verification relationship   *)
+(*                       obey the same id rules as verificationMethod [F20]*)
 (***************************************************************************)
 EXTENDS Naturals, FiniteSets, Sequences, TLC
 
@@ -46,9 +48,11 @@ CONSTANTS
     Carriers,     \* ambassador mode: transactions that are also delivered with a defective document
     Defects,      \* defect classes of documents (all must be refused)
     PanicDefects, \* subset whose refusal is a nil dereference in the code
+    LaxDefects,   \* subset the validator of the code does not look at (prescriptive: {})
     Mode,         \* "store" | "ambassador"
     MaxDepth,     \* maxControllerDepth (real: 5)
     SortedMerge, ConflictFlagAtHead, ValidatorNilSafe, TimeSeesDeactivation,
+    PinIntermediate,
     Hist
 
 VARIABLES
@@ -135,10 +139,14 @@ ApplyEvent(hasCur, cur, e, sorted) ==
                ELSE {[m1 EXCEPT !.src = {e} \cup unc, !.doc = md, !.hash = MergedHash(md)] : md \in MergedDocs(unc, doc, sorted)}
 
 \* applyFrom: apply evs one after the other on top of cur; the set of possible version sequences
+\* PinIntermediate: only the LAST version (the one a caller observes after the call) takes the map-iteration dependent
+\* value, the versions below it take the sorted one (they do not influence the versions above them: a merge always
+\* starts from the published documents of the open branches). Keeps trace validation / generation small.
 RECURSIVE Outcomes(_, _, _, _)
 Outcomes(hasCur, cur, evs, sorted) ==
     IF evs = <<>> THEN {<<>>}
-    ELSE UNION {{<<m>> \o rest : rest \in Outcomes(TRUE, m, Tail(evs), sorted)} : m \in ApplyEvent(hasCur, cur, Head(evs), sorted)}
+    ELSE LET srt == sorted \/ (PinIntermediate /\ Len(evs) > 1) IN
+         UNION {{<<m>> \o rest : rest \in Outcomes(TRUE, m, Tail(evs), sorted)} : m \in ApplyEvent(hasCur, cur, Head(evs), srt)}
 
 (***************************************************************************)
 (* Reference: the state implied by a SET of events                         *)
@@ -285,7 +293,7 @@ UpdateVerdict(t) ==
 Verdict(t, df) ==
     IF ~SignatureOK(t) THEN "rejected"                                   \* never reaches the ambassador
     ELSE IF df \in PanicDefects /\ ~ValidatorNilSafe THEN "panic"
-    ELSE IF df # "none" THEN "rejected"                                  \* NetworkDocumentValidator
+    ELSE IF df # "none" /\ df \notin LaxDefects THEN "rejected"            \* NetworkDocumentValidator
     ELSE IF T[t].kind = "create" THEN (IF Thumb[T[t].key] = T[t].did THEN "accepted" ELSE "rejected")
     ELSE UpdateVerdict(t)
 
@@ -370,7 +378,8 @@ ConflictResolvedByJoin ==
               /\ {s.id : s \in m.doc.svcs} = UNION {{s.id : s \in DocOf(e).svcs} : e \in m.src}
 \* once the latest version is deactivated no later arrival makes the DID resolve as active
 LatestErr(ms, lat) == ResolveIn(ms, lat, QNil).err
-DeactivatedForever == [][\A d \in DIDs : LatestErr(meta[d], latest[d]) = "deactivated" => LatestErr(meta'[d], latest'[d]) = "deactivated"]_vars
+DeactivatedForever == [][last'.res # "reset" =>
+                            \A d \in DIDs : LatestErr(meta[d], latest[d]) = "deactivated" => LatestErr(meta'[d], latest'[d]) = "deactivated"]_vars
 DeactivatedSticky == \A d \in DIDs : \A i \in 1..Len(meta[d]) : \A j \in i..Len(meta[d]) : meta[d][i].deact => meta[d][j].deact
 \* resolving at a time at/after the deactivation in force does not yield an active document
 TimeRespectsDeactivation ==
@@ -381,9 +390,10 @@ TimeRespectsDeactivation ==
 
 \* ---- C09 ----
 KeysChangeOnlyByAuthorized ==
-    [][(storeVars' # storeVars /\ Mode = "ambassador") => (last'.res = "accepted" /\ WellFormed(last'.df) /\ RefAuthorised(last'.t))]_vars
+    [][(storeVars' # storeVars /\ Mode = "ambassador" /\ last'.res # "reset") =>
+            (last'.res = "accepted" /\ WellFormed(last'.df) /\ RefAuthorised(last'.t))]_vars
 RejectedChangesNothing ==
-    [][(Mode = "ambassador" /\ last'.res # "accepted") =>
+    [][(Mode = "ambassador" /\ last'.res \notin {"accepted", "reset"}) =>
             (UNCHANGED storeVars /\ \A d \in DIDs : AuthKeys(meta', latest', d) = AuthKeys(meta, latest, d))]_vars
 NoPanic == last.res # "panic"
 \* only transactions that passed are stored
